@@ -232,6 +232,16 @@ def r10_5(ctx):
             msg = "the equal edge returns the member without advancing the iterator again" if ok else "after a match the iteration continues: a later member can win"
         else:
             ok = False
+    elif not nx and not eqs:
+        # combinator form: a forward first-match search (find / find_map / position) over the members in storage order, the
+        # single comparison in its closure; any reversing / last-match / reordering adaptor on the way is rejected
+        FWD = {"iter", "into_iter", "map", "find", "find_map", "position", "copied", "cloned", "by_ref"}
+        its = [(b, t) for b, t in f.calls() if "::Iterator::" in t["callee"] or "::DoubleEndedIterator::" in t["callee"] or "IntoIterator" in t["callee"] or callee_is(t, "iter")]
+        search = [t for b, t in its if t["callee"].rsplit("::", 1)[-1] in ("find", "find_map", "position") and "DoubleEnded" not in t["callee"]]
+        other = sorted({t["callee"].rsplit("::", 1)[-1] for b, t in its} - FWD | {t["callee"] for b, t in its if "DoubleEnded" in t["callee"]})
+        ceqs = [(g, t) for g in prog.closures_of(f) for b, t in g.calls() if callee_is(t, "eq")]
+        ok = len(search) == 1 and not other and len(ceqs) == 1
+        msg = f"forward search {[t['callee'].rsplit('::', 1)[-1] for t in search]} with {len(ceqs)} comparison(s) in its closure" + (f"; adaptors that change the order or the winner: {other}" if other else "")
     ctx.ob("R10.5", "Value::get_key_value:first-member-wins", ok, f.loc(), msg)
 
 
